@@ -83,7 +83,22 @@ func genObj(t *rapid.T, depth, minProps int) *tyd {
 	o := &tyd{Kind: "obj", Props: map[string]*tyd{}, Open: rapid.IntRange(0, 4).Draw(t, "open") == 0}
 	for i := 0; i < n; i++ {
 		name := string(rune('a' + i))
-		o.Props[name] = genTyd(t, depth-1)
+		if i > 0 && rapid.IntRange(0, 2).Draw(t, "twin") == 0 {
+			// a twin of an earlier member: same shape (so that merging the two is interesting)
+			tw := cloneTyd(o.Props[o.Order[rapid.IntRange(0, i-1).Draw(t, "twinof")]])
+			if rapid.Bool().Draw(t, "twinchange") {
+				// same shape except at one nested position
+				var occ []*tyd
+				occurrencesOf(tw, &occ)
+				if len(occ) > 1 {
+					x := occ[rapid.IntRange(1, len(occ)-1).Draw(t, "twinocc")]
+					*x = *genTyd(t, 1)
+				}
+			}
+			o.Props[name] = tw
+		} else {
+			o.Props[name] = genTyd(t, depth-1)
+		}
 		o.Order = append(o.Order, name)
 	}
 	return o
@@ -121,6 +136,48 @@ func (g *c06gen) chain() (string, *tyd) {
 	b.WriteString(ctx)
 	cur := g.env.Ctx[ctx]
 	g.visited[cur] = true
+	return g.walk(&b, cur)
+}
+
+// merged draws `(ctx.p || ctx.q)` (or &&) over two members of one context - preferably twins of the
+// same shape - and continues the access chain along the first member's type.
+func (g *c06gen) merged() (string, *tyd) {
+	t := g.t
+	ctx := rapid.SampledFrom(g.env.Names).Draw(t, "mctx")
+	root := g.env.Ctx[ctx]
+	if len(root.Order) < 2 {
+		return g.chain()
+	}
+	i := rapid.IntRange(0, len(root.Order)-1).Draw(t, "m1")
+	j := rapid.IntRange(0, len(root.Order)-2).Draw(t, "m2")
+	if j >= i {
+		j++
+	}
+	p, q := root.Order[i], root.Order[j]
+	g.visited[root] = true
+	g.visited[root.Props[p]] = true
+	g.visited[root.Props[q]] = true
+	markAll(g.visited, root.Props[q])
+	op := rapid.SampledFrom([]string{"||", "&&"}).Draw(t, "mop")
+	var b strings.Builder
+	b.WriteString("(" + ctx + "." + p + " " + op + " " + ctx + "." + q + ")")
+	return g.walk(&b, root.Props[p])
+}
+
+func markAll(v map[*tyd]bool, t *tyd) {
+	v[t] = true
+	if t.Elem != nil {
+		markAll(v, t.Elem)
+	}
+	for _, k := range t.Order {
+		markAll(v, t.Props[k])
+	}
+}
+
+// walk continues an access chain from a value of (statically known) type cur.
+func (g *c06gen) walk(bp *strings.Builder, cur *tyd) (string, *tyd) {
+	t := g.t
+	b := bp
 	anyT := &tyd{Kind: "any"}
 	for i := 0; i < 5; i++ {
 		if rapid.IntRange(0, 3).Draw(t, "stop") == 0 {
@@ -208,8 +265,11 @@ func (g *c06gen) expr(depth int) string {
 		k = k % 2
 	}
 	switch k {
-	case 0, 10:
+	case 0:
 		s, _ := g.chain()
+		return s
+	case 10:
+		s, _ := g.merged()
 		return s
 	case 1:
 		return rapid.SampledFrom([]string{"'s'", "1", "true", "null", "'{0} {1}'", "0x1f", "1.5"}).Draw(t, "lit")
@@ -489,6 +549,107 @@ func TestC06(t *testing.T) {
 			}
 		})
 		r.Extra["accepted_under_original_env"] = accepted
+
+		// directed generator for type merging: two members of the same structured shape that differ at
+		// one nested position, merged by || / && (or by fromJSON-free index expressions), then used.
+		r.Check(t, "merge-of-similar-structures", hx.N(20000, 300000), func(rt *rapid.T) {
+			shape := func(depth int) *tyd {
+				// array/object heavy shapes
+				var mk func(d int) *tyd
+				mk = func(d int) *tyd {
+					k := rapid.IntRange(0, 6).Draw(rt, "sk")
+					if d <= 0 {
+						k = k % 3
+					}
+					switch k {
+					case 0:
+						return &tyd{Kind: "str"}
+					case 1:
+						return &tyd{Kind: rapid.SampledFrom([]string{"num", "bool", "null"}).Draw(rt, "sc")}
+					case 2:
+						return &tyd{Kind: "any"}
+					case 3, 4:
+						return &tyd{Kind: "arr", Elem: mk(d - 1)}
+					default:
+						o := &tyd{Kind: "obj", Props: map[string]*tyd{}}
+						for i := 0; i < rapid.IntRange(1, 2).Draw(rt, "snp"); i++ {
+							n := string(rune('a' + i))
+							o.Props[n] = mk(d - 1)
+							o.Order = append(o.Order, n)
+						}
+						return o
+					}
+				}
+				t := mk(depth)
+				if t.Kind != "arr" && t.Kind != "obj" {
+					t = &tyd{Kind: "arr", Elem: t}
+				}
+				return t
+			}
+			p := shape(3)
+			q := cloneTyd(p)
+			var qocc []*tyd
+			occurrencesOf(q, &qocc)
+			var changed *tyd
+			if len(qocc) > 1 {
+				changed = qocc[rapid.IntRange(1, len(qocc)-1).Draw(rt, "chg")]
+				*changed = *shape(1)
+				if rapid.Bool().Draw(rt, "scalarchg") {
+					*changed = tyd{Kind: rapid.SampledFrom([]string{"str", "num", "any"}).Draw(rt, "chgk")}
+				}
+			}
+			root := &tyd{Kind: "obj", Props: map[string]*tyd{"p": p, "q": q}, Order: []string{"p", "q"}}
+			env := &tenv{Ctx: map[string]*tyd{"matrix": root}, Names: []string{"matrix"}}
+			g := &c06gen{t: rt, env: env, visited: map[*tyd]bool{}}
+			var b strings.Builder
+			first, second := "p", "q"
+			if rapid.Bool().Draw(rt, "swap") {
+				first, second = "q", "p"
+			}
+			op := rapid.SampledFrom([]string{"||", "&&"}).Draw(rt, "op")
+			b.WriteString("(matrix." + first + " " + op + " matrix." + second + ")")
+			// walk along either member's structure
+			along := root.Props[rapid.SampledFrom([]string{"p", "q"}).Draw(rt, "along")]
+			src, _ := g.walk(&b, along)
+			if rapid.Bool().Draw(rt, "wrap") {
+				src = rapid.SampledFrom([]string{"format('{0}', %s)", "toJSON(%s)", "%s == 'x'", "contains(%s, 'x')", "!%s"}).Draw(rt, "wrapf")
+				src = fmt.Sprintf(src, b.String())
+			}
+			// loosening: the changed position (or another occurrence of q / p)
+			var occ []*tyd
+			occurrencesOf(root, &occ)
+			o := occ[rapid.IntRange(1, len(occ)-1).Draw(rt, "locc")]
+			if changed != nil && rapid.IntRange(0, 2).Draw(rt, "atchanged") > 0 {
+				o = changed
+			}
+			saved := *o
+			what := fmt.Sprintf("replacing the occurrence of type %s by any", saved.String())
+			if o.Kind == "obj" && !o.Open && rapid.Bool().Draw(rt, "openit") {
+				what = fmt.Sprintf("opening the closed object %s", saved.String())
+				o.Open = true
+			} else if o.Kind == "any" {
+				r.Eval()
+				r.Class("merge/no-loosening-possible")
+				return
+			} else {
+				*o = tyd{Kind: "any"}
+			}
+			loose := &tenv{Ctx: map[string]*tyd{"matrix": cloneTyd(root)}, Names: env.Names}
+			*o = saved
+			c := &c06Case{Env: env, Src: src, Loose: loose, What: what}
+			k, m, acc := checkLoosening(c)
+			r.Eval()
+			if acc {
+				r.NT(src, envString(env), what)
+				r.Class("merge/accepted")
+				r.Sample(map[string]string{"expr": src, "env": envString(env), "loosening": what})
+			} else {
+				r.Class("merge/rejected-under-original-environment")
+			}
+			if k != "" {
+				r.Fail(rt, k, m, "C06/sema", c)
+			}
+		})
 
 		r.Check(t, "workflow-loosening", hx.N(1500, 30000), func(rt *rapid.T) {
 			// matrix with rows; steps referencing them
